@@ -251,22 +251,24 @@ func (pg *Page) split(sym string, values map[string]string) (map[string]string, 
 func (pg *Page) joinSink(sinkValues []string, remaining uint32, menuSizes [4]uint32) (string, uint16, error) {
 	l := 0
 	var count uint16
+	// number of sink rows in the page currently being assembled (rows may be empty strings)
+	n := 0
 	tb := strings.Builder{}
 	rb := strings.Builder{}
 
 	// remaining is remaining less one LF
-	netRemaining := remaining - 1
+	netRemaining := int64(remaining) - 1
 
 	// BUG: this reserves the previous browse before we know we need it
 	if len(sinkValues) > 1 {
-		netRemaining -= (menuSizes[1] + 1)
+		netRemaining -= int64(menuSizes[1] + 1)
 	}
 
 	for i, v := range sinkValues {
 		l += len(v)
 		logg.Tracef("processing sink", "idx", i, "value", v, "netremaining", netRemaining, "l", l)
-		if uint32(l) > netRemaining-1 {
-			if tb.Len() == 0 {
+		if int64(l) > netRemaining-1 {
+			if n == 0 {
 				return "", 0, fmt.Errorf("capacity insufficient for sink field %v", i)
 			}
 			rb.WriteString(tb.String())
@@ -274,26 +276,27 @@ func (pg *Page) joinSink(sinkValues []string, remaining uint32, menuSizes [4]uin
 			c := uint32(rb.Len())
 			pg.sizer.AddCursor(c)
 			tb.Reset()
+			n = 0
 			l = len(v)
 			if count == 0 {
-				netRemaining -= (menuSizes[2] + 1)
+				netRemaining -= int64(menuSizes[2] + 1)
 			}
 			count += 1
 		}
-		if tb.Len() > 0 {
+		if n > 0 {
 			tb.WriteByte(byte(0x00))
 			l += 1
 		}
 		tb.WriteString(v)
+		n += 1
 	}
 
-	if tb.Len() > 0 {
+	if n > 0 {
 		rb.WriteString(tb.String())
 		count += 1
 	}
 
 	r := rb.String()
-	r = strings.TrimRight(r, "\n")
 	return r, count, nil
 }
 
